@@ -15,7 +15,7 @@ CHECKS = {
         "category": "proof",
         "text": "Verus proves, for every index type and all store contents, that insert/remove of the four in-memory stores (real function text, extracted each run) implement set insertion/removal on the term-level set of triples/quads, return the exact changed-flag, keep the 3/6 secondary indexes coherent, leave the quad sets untouched when the term index is full, and do nothing for unknown terms.",
         "design_ref": "DESIGN.md 4.1, 4.2, 5 (C01)",
-        "note": "Trusted: Verus/z3, vstd BTreeSet specs, lawful Ord on index arrays, stand-in TermIndex contract (the real SimpleTermIndex is only checked against it by bounded Kani), R0/R2 rewrites. Pattern queries and bulk defaults are not under contract (stated in evidence.not_covered).",
+        "note": "Trusted: Verus/z3, vstd BTreeSet specs, lawful Ord on index arrays, stand-in TermIndex contract (the real SimpleTermIndex is only checked against it by bounded Kani), R0/R2 rewrites. The query dispatch (triples_matching / quads_matching) is outside both verifiers: it is covered only by a labelled bounded native stand-in (exhaustive histories <= 3 ops x all 16 shapes), never counted as proved.",
         "technique": "deductive verification (Verus contracts + data-structure invariant + set lemmas) of mechanically extracted code",
     },
     "C06": {
@@ -55,7 +55,7 @@ CHECKS = {
         "category": "proof",
         "text": "Verus proves for every base, IRI and heuristic candidate that Relativizer::relativize (real function text, extracted each run) returns Some(r) only if r is a valid IRI reference and BaseIri::resolve(base, r) returned exactly the IRI: the function's resolve-and-compare guard makes the soundness half of the property hold whatever the prefix heuristic computes.",
         "design_ref": "DESIGN.md 5 (C17), 8.3",
-        "note": "Trusted: Verus/z3; BaseIri::resolve (oxiri) as the definition of RFC 3986 resolution; IriRef::new as the validity test. NOT covered: the parent-step bound, completeness (IRIs equal to the base up to query/fragment are always relativised), Relativizer::new.",
+        "note": "Trusted: Verus/z3; BaseIri::resolve (oxiri) as the definition of RFC 3986 resolution; IriRef::new as the validity test. The parent-step bound, completeness (IRIs equal to the base up to query/fragment are always relativised) and Relativizer::new are covered only by a labelled bounded native stand-in (167 640 enumerated triples).",
         "technique": "deductive verification (Verus postcondition over an abstracted callee) of mechanically extracted code",
     },
     "C19": {
@@ -71,7 +71,7 @@ CHECKS = {
         "category": "model_checking",
         "text": "Bounded Kani harnesses on the real comparison kernel of the isomorphism test (IsoTerm ==/Ord/iso_cmp): equal exactly when the terms coincide after blanking every blank node, including inside quoted triples; Ord consistent and antisymmetric. The colour-refinement part is not under contract.",
         "design_ref": "DESIGN.md 5 (C07)",
-        "note": "Bounded: 1-byte payloads over {a,b}, nesting depth 1. Trusted: Kani/CBMC, validator stubs. NOT covered: make_map/hash_quad_with (HashMap + SipHash out of CBMC's reach), end-to-end isomorphic_datasets (native replay only).",
+        "note": "Bounded: 1-byte payloads over {a,b}, nesting depth 1. Trusted: Kani/CBMC, validator stubs. make_map/hash_quad_with (HashMap + SipHash) are out of CBMC's reach: end-to-end isomorphic_datasets is covered only by a labelled bounded native stand-in (all datasets of <= 2 quads over a small term pool).",
         "technique": "Kani proof harnesses (assume/assert contracts on the real generic code), bounded",
     },
     "C11": {
@@ -87,7 +87,7 @@ CHECKS = {
         "category": "proof",
         "text": "Kani proves the step contract of Source::try_for_some_item (end / source error / item; callback called exactly once with the mapped item iff it passes; error side and value preserved) for the Iterator source, all 39 adapter chains of depth <= 3 and the three Rio adapters, with loop-free harnesses over symbolic outcomes, adapter parameters and sink results (complete). A Verus lemma (lemma_prefix, unbounded) derives the whole-stream statement from the step contract by induction; the real drivers (try_for_each_item, insert_all, remove_all) are run for all streams of 3 outcomes (bounded) to tie the lemma's driver to the real loop.",
         "design_ref": "DESIGN.md 4.4, 5 (C15)",
-        "note": "Trusted: Kani/CBMC, Verus/z3; closures over u8 items stand for arbitrary items; a stub Rio parser replaces rio_turtle; lemma_prefix is a spec-level lemma (no extracted code). Not covered: serializer sinks, collect_*.",
+        "note": "Trusted: Kani/CBMC, Verus/z3; closures over u8 items stand for arbitrary items; a stub Rio parser replaces rio_turtle; lemma_prefix is a spec-level lemma (no extracted code). The IntoIterator forms of the adapters (VecDeque buffering) and real parser sources are covered only by a labelled bounded native stand-in. Not covered: serializer sinks, collect_*.",
         "technique": "Kani proof harnesses stating pre/postconditions of the real functions; loop-free full-domain harnesses (complete) plus bounded stream drivers",
     },
     "C20": {
@@ -103,7 +103,7 @@ CHECKS = {
         "category": "proof",
         "text": "Verus proves for all byte strings that quoted_string (the real function text, extracted each run) writes exactly esc(lexical form); lemmas over esc give unesc(esc(s)) == s, one statement per line, image inside the W3C STRING_LITERAL_QUOTE body, UTF-8 preserved.",
         "design_ref": "DESIGN.md 4.5, 5 (C03)",
-        "note": "Trusted: Verus/z3, write_all contract, byte-literal axioms L1 (cross-checked by the rustc guard), rewrites R1/R3/R4 (R1/R4 guarded differentially), Rio parser conformance to the W3C grammar; whole-term framing is bounded/assumed.",
+        "note": "Trusted: Verus/z3, write_all contract, byte-literal axioms L1 (cross-checked by the rustc guard), rewrites R1/R3/R4 (R1/R4 guarded differentially), Rio parser conformance to the W3C grammar; term framing is bounded (Kani, 1-byte components), statement framing is a labelled bounded native stand-in (240 quads through the real serializers and parsers).",
         "technique": "deductive verification (Verus pre/postconditions, loop invariants, lemmas) of mechanically extracted code",
     },
 }
